@@ -4,11 +4,13 @@ package zz_verif
 
 import (
 	ipfslog "berty.tech/go-ipfs-log"
+	"berty.tech/go-ipfs-log/enc"
 	"berty.tech/go-ipfs-log/entry"
 	"berty.tech/go-ipfs-log/entry/sorting"
 	idp "berty.tech/go-ipfs-log/identityprovider"
 	"berty.tech/go-ipfs-log/iface"
 	"berty.tech/go-ipfs-log/internal/vx"
+	"berty.tech/go-ipfs-log/io/cbor"
 	"berty.tech/go-ipfs-log/io/jsonable"
 	"github.com/ipfs/go-cid"
 )
@@ -105,7 +107,7 @@ func H_C12_v2() {
 	normal, _ := entry.CreateEntryWithIO(ctx, api, ids[0], &entry.Entry{LogID: "X", Payload: []byte("n")}, nil, io)
 	// one group of fields is untrusted at a time (FOCUS), the others hold well-formed defaults; FOCUS=all
 	// varies the structural choices (absent clock / identity / signatures) together
-	focus := vx.Choice("focus", 5)
+	focus := vx.Choice("focus", 6)
 	j := &jsonable.Entry{V: 2, LogID: "X", Key: "0a", Sig: "0b", Next: []cid.Cid{}, Refs: []cid.Cid{}, Payload: "p",
 		Clock: &jsonable.LamportClock{ID: "0c", Time: 1}}
 	switch focus {
@@ -129,6 +131,22 @@ func H_C12_v2() {
 		case 2:
 			j.Clock = &jsonable.LamportClock{}
 		}
+	case 5: // encrypted-links side fields, read with a link-encrypting codec
+		b64 := []string{"", "AAAAAAAAAAAAAAAAAAAAAAAAAAAAAAAA", "AAAAAAAAAAAAAAAAAAAAAAAAAAAAAAAAAAAA", "AAAA", "!!", "A"}
+		j.EncryptedLinks = b64[vx.Choice("enc_links", len(b64))]
+		j.EncryptedLinksNonce = b64[vx.Choice("enc_links_nonce", len(b64))]
+		base, err := cbor.IO(&entry.Entry{}, &entry.LamportClock{})
+		if err != nil {
+			panic(err)
+		}
+		k, _ := enc.NewSecretbox(linkKeyBytes(3))
+		dec, derr := base.ApplyOptions(&cbor.Options{LinkKey: k}).DecryptLinks(j)
+		vx.Cover("decrypt-links-returned")
+		if derr != nil || dec == nil {
+			vx.Cover("rejected")
+			return
+		}
+		j = dec
 	case 4: // identity
 		switch vx.Choice("identity", 3) {
 		case 0:
